@@ -21,7 +21,7 @@ from . import common
 ID = "C15"
 LEVEL = "model_checking"
 MOD = "checks.c15"
-PRO = common.PROLOGUE + "from Reduino.Sensors import Button, Potentiometer, Ultrasonic\n"
+PRO = common.PROLOGUE + "from Reduino.Sensors import Button, Potentiometer, Ultrasonic\nfrom Reduino.Actuators import RGBLed, Servo, Led\n"
 
 
 # ------------------------------------------------------------------------------------------
@@ -181,14 +181,28 @@ POT_BODIES = [
     ["k = 0", "while k < 2:", "    k += 1", "    nw = k", "    for i in range(pot.read() % 4):", "        mon.write(pot.read())"],
     ["try:", "    nt = 1", "    for i in range(pot.read() // 300):", "        mon.write(i)", "except:", "    nt = 0"],
     ["lst = [pot.read(), pot.read()]", "mon.write(lst[0] - lst[1])"],
+    # the same read written twice in one statement is two analog reads, also as the arguments of a device call
+    ["mon.write(pot.read() - pot.read())"],
+    ['mon.write(f"{pot.read()},{pot.read()}")'],
+    (["rgbp = RGBLed(9, 10, 11)"], ["rgbp.set_color(pot.read() // 4, pot.read() // 4, 0)", "mon.write(0)"]),
+    (["rgbp = RGBLed(9, 10, 11)"], ["rgbp.set_color(pot.read() // 4, 5, pot.read() // 4)", "mon.write(0)"]),
+    (["rgbp = RGBLed(9, 10, 11)"], ["rgbp.set_color(pot.read() // 4, pot.read() // 4, pot.read() // 4)", "mon.write(0)"]),
+    (["rgbp = RGBLed(9, 10, 11)"], ["rgbp.set_color(red=pot.read() // 4, green=pot.read() // 4, blue=1)", "mon.write(0)"]),
+    (["ledp = Led(5)"], ["ledp.set_brightness(pot.read() // 4)", "ledp.set_brightness(pot.read() // 4)", "mon.write(0)"]),
+    (["def avg(a, b):", "    return (a + b) // 2"], ["mon.write(avg(pot.read(), pot.read()))"]),
+    (["def pick(a, b, c):", "    return a * 2 + b - c"], ["mon.write(pick(pot.read(), pot.read(), pot.read()))"]),
 ]
 
 
 def gen_pot(tier: str) -> Iterator[dict]:
     vals = (0, 1, 512, 1023) if tier != "thorough" else (0, 1, 511, 512, 1023)
-    for bi, body in enumerate(POT_BODIES):
+    for bi, entry in enumerate(POT_BODIES):
         for where in ("before", "looptop"):
-            decl = ['pot = Potentiometer("A0")']
+            decl, body = ['pot = Potentiometer("A0")'], entry
+            if isinstance(entry, tuple):
+                if where == "looptop":
+                    continue
+                decl, body = decl + entry[0], entry[1]
             src = common.script(decl, body, prologue=PRO) if where == "before" else common.script([], decl + body, prologue=PRO)
             runs = [{"passes": 2, "ar": {"A0": list(seq) + [7, 8, 9]}} for seq in itertools.product(vals, repeat=3)]
             yield {"id": f"P:{bi}:{where}", "space": "P", "src": src, "runs": runs, "meta": {}}
